@@ -29,7 +29,8 @@ REQUIRED = {"grammar.fault_free": {"quick": 100, "thorough": 5000}, "recipe.same
             "dry_run.no_hooks": {"quick": 5, "thorough": 300}}
 REQUIRED_SEEN = {"tag_name_class": ["contains_percent_sign"], "selection_shape": ["by_rendered_outline_tag"], "hook_decoration": ["capture", "plain"], "hook_habit": ["reads_status_of_its_element", "plain"], "fault_hook": ["before_all", "after_all", "before_feature", "after_feature", "before_rule", "after_rule",
                                 "before_scenario", "after_scenario", "before_step", "after_step", "before_tag", "after_tag"],
-                 "tag_hook_owner_kind": ["feature", "rule", "scenario"]}
+                 "tag_hook_owner_kind": ["feature", "rule", "scenario"], "failfast_owner_kind": ["feature", "rule", "scenario", "step"],
+                 "failfast_owner_shape": ["scenario_without_steps"]}
 EXHAUSTIVE = True
 EXHAUSTIVE_SCOPE = "every hook invocation of the fault-free run of every generated program is an injection point"
 NSHARDS = {"quick": 16, "thorough": 16}
@@ -236,6 +237,13 @@ def run_program(lab, mon, case, rng, tier, sample=False):
         excs = ["Exception", "AssertionError"] if tier == "thorough" else [("Exception", "AssertionError")[k % 2]]
         for exc in excs:
             one_fault(lab, mon, case, struct, pred, obs0, calls0, owner0, k, exc)
+    # ---- the same faults under a "fail fast" environment.py (after_scenario skips the rest of the feature / rule once a
+    #      scenario has failed): the element whose hook raised is hook_error at the END of the run as well
+    if H0:
+        stepless = set(n for n, sts in obs0.step_status.items() if not sts and struct.kind.get(n) == "scenario")
+        first = [k for k in range(len(H0)) if owner0[k] and owner0[k][0] == "scenario" and owner0[k][1] in stepless]
+        for k in (list(range(len(H0))) if tier == "thorough" else sorted(set(first[:12] + rng.sample(ks, min(8, len(ks)))))):
+            failfast_fault(lab, mon, case, struct, owner0, H0, k, rng.choice(["feature", "feature", "rule"]))
     if tier == "thorough" and len(H0) >= 2:
         for _ in range(min(6, len(H0))):
             k1, k2 = sorted(rng.sample(range(len(H0)), 2))
@@ -243,6 +251,45 @@ def run_program(lab, mon, case, rng, tier, sample=False):
     if sample:
         mon.sample({"features": RB.case_texts(case), "args": args, "fault_free_hook_log": [list(map(str, h)) for h in H0[:40]],
                     "injection_points": len(H0)})
+
+
+def failfast_fault(lab, mon, case, struct, owner0, H0, k, scope, exc="Exception"):
+    fault = {"k": k, "exc": exc}
+
+    def skip_rest(state, context, name, elem, tag):
+        if name == "after_scenario" and elem.status.has_failed():
+            target = getattr(context, "rule", None) if scope == "rule" else None
+            (target or context.feature).skip(reason="fail fast")
+    saved = lab.extra_hook_plugins
+    lab.extra_hook_plugins = list(saved or []) + [skip_rest]
+    try:
+        obs = lab.run(case["program"], args=case["args"], hook_fault=fault)
+    finally:
+        lab.extra_hook_plugins = saved
+    c2 = dict(case, hook_fault=fault, fail_fast=scope)
+    mon.case(("failfast", RB.strip_case(c2)), True)
+    mon.check("failfast.no_exception_escapes", obs.escaped is None, lambda: RB.witness(c2, escaped=repr(obs.escaped)))
+    if obs.escaped is not None or not obs.faults_fired:
+        return
+    # which hook the k-th call IS in this run (the skipping environment changes the hook log) and whose hook it is: the
+    # harness's own record, made when the fault was raised
+    _k, hname, ename, tag = obs.faults_fired[0]
+    owner = obs.fault_owners[0]
+    W = lambda **kw: RB.witness(c2, hook=[hname, list(ename) if isinstance(ename, tuple) else ename, tag], owner=owner, **kw)
+    mon.check("failfast.run_fails", bool(obs.verdict) is True, lambda: W(statuses=obs.elem_status))
+    if hname.endswith("_all"):
+        return
+    if hname.endswith("_step"):
+        mon.seen("failfast_owner_kind", "step")
+        st = obs.elem_status.get(ename[0])
+        mon.check("failfast.scenario_of_failing_step_hook_is_error", st == "error", lambda: W(scenario=ename[0], status=st))
+    elif owner is not None:
+        kind = struct.kind.get(owner)
+        mon.seen("failfast_owner_kind", str(kind))
+        st = obs.elem_status.get(owner)
+        if not obs.step_status.get(owner) and kind == "scenario":
+            mon.seen("failfast_owner_shape", "scenario_without_steps")
+        mon.check("failfast.owner_is_hook_error", st == "hook_error", lambda: W(status=st, statuses=obs.elem_status))
 
 
 def one_fault(lab, mon, case, struct, pred, obs0, calls0, owner0, k, exc):
@@ -437,7 +484,7 @@ def run(spec, mon):
         if i % 4 == 2:
             # scenarios without any step (title and tags only) in features without background, skipped by the environment:
             # a skipped element gets no hook, however little there is in it
-            gen.update({"p_stepless": 0.3, "p_background": 0.0, "p_rule_background": 0.0})
+            gen.update({"p_stepless": 0.3, "p_background": 0.0, "p_rule_background": 0.0, "p_nonpass": 0.2 if i % 8 == 2 else 0.5})
         if i % 4 == 3:
             # hardly any plain tags, outlines with parametrised tags and untagged Examples: a selection by a RENDERED tag
             # (@p.<t> -> --tags=@p.a) is the only reason for the enclosing feature / rule to run -- with all their hooks
@@ -504,6 +551,29 @@ def run(spec, mon):
         finally:
             lab.capture_hooks = None
             lab.extra_hook_plugins = None
+    for i in range(3 if tier == "quick" else 60):
+        failfast_directed(lab, mon, rng, outs)
+
+
+def failfast_directed(lab, mon, rng, outs):
+    """Programs with many step-less scenarios and many failing ones, no backgrounds: every hook of every step-less scenario
+    raises once under the fail-fast environment."""
+    gen = {"outcomes": outs, "max_features": 2, "p_nonpass": 0.6, "p_stepless": 0.5, "p_background": 0.0, "p_rule_background": 0.0,
+           "p_outline": 0.1, "max_items": 4, "max_rules": 1, "p_tag": 0.6, "p_empty_examples": 0.0}
+    case = RB.gen_case(rng, gen=gen, p_stop=0.0, p_dry=0.0, p_noskipped=0.3, tags=False)
+    obs0 = lab.run(case["program"], args=case["args"])
+    if obs0.escaped is not None:
+        mon.check("fault_free.no_exception_escapes", False, lambda: RB.witness(case, escaped=repr(obs0.escaped)))
+        return
+    pred = runmodel.predict(case["program"], case["cfg"])
+    struct = Struct(case["program"], pred)
+    errs, owner0 = check_grammar(obs0.hooks, struct)
+    if errs:
+        mon.check("grammar.fault_free", False, lambda: RB.witness(case, errors=errs[:6], hooks=obs0.hooks[:60]))
+        return
+    stepless = set(n for n, sts in obs0.step_status.items() if not sts and struct.kind.get(n) == "scenario")
+    for k in [k for k in range(len(obs0.hooks)) if owner0[k] and owner0[k][0] == "scenario" and owner0[k][1] in stepless][:24]:
+        failfast_fault(lab, mon, case, struct, owner0, obs0.hooks, k, rng.choice(["feature", "feature", "rule"]))
 
 
 def replay(case, mon):
@@ -523,7 +593,10 @@ def replay(case, mon):
     errs, owner0 = check_grammar(obs0.hooks, struct)
     print("fault-free grammar errors:", errs)
     f = case.get("hook_fault")
-    if f and "k" in f:
+    if f and "k" in f and case.get("fail_fast"):
+        base.pop("fail_fast", None)
+        failfast_fault(lab, mon, base, struct, owner0, obs0.hooks, f["k"], case["fail_fast"], f.get("exc", "Exception"))
+    elif f and "k" in f:
         one_fault(lab, mon, base, struct, pred, obs0, calls_by_scenario(obs0), owner0, f["k"], f.get("exc", "Exception"))
         print("hook:", obs0.hooks[f["k"]], "owner:", owner0[f["k"]])
 
